@@ -1220,7 +1220,30 @@ fn leaf_query(m: &Model, s: &Sel, var: &str) -> Option<(String, String)> {
         }
         Sel::Text { r, b, e } => {
             let id = res_id(m, r)?;
-            q_str_ok(&id).then(|| (format!("SELECT TEXT ?{} WHERE RESOURCE \"{}\" OFFSET {} {};", var, id, cur_text(b), cur_text(e)), format!("TARGET ?{};", var)))
+            if !q_str_ok(&id) {
+                return None;
+            }
+            // every second time (decided by the offsets, so that it replays): select an enclosing part of
+            // the text in the sub-query and give the rest as an OFFSET on the TARGET, relative to that part
+            let uid = m.res_target(r).uid?;
+            let len = m.resources[uid].text.len();
+            if let (Some(ab), Some(ae)) = (b.resolve(len), e.resolve(len)) {
+                if ab <= ae && (ab + ae) % 2 == 1 {
+                    let ob = ab / 2;
+                    let oe = ae + (len - ae) / 2;
+                    let (rb, re) = if ab % 3 == 0 {
+                        (format!("{}", ab - ob), format!("{}", ae - ob))
+                    } else {
+                        // end-aligned relative to the enclosing part
+                        (format!("{}", ab - ob), if oe == ae { "-0".to_string() } else { format!("-{}", oe - ae) })
+                    };
+                    return Some((
+                        format!("SELECT TEXT ?{} WHERE RESOURCE \"{}\" OFFSET {} {};", var, id, ob, oe),
+                        format!("TARGET ?{} OFFSET {} {};", var, rb, re),
+                    ));
+                }
+            }
+            Some((format!("SELECT TEXT ?{} WHERE RESOURCE \"{}\" OFFSET {} {};", var, id, cur_text(b), cur_text(e)), format!("TARGET ?{};", var)))
         }
         Sel::DataSet { s } => {
             let id = set_id(m, s)?;
